@@ -168,7 +168,7 @@ def gen_model(rnd, n=None):
             recipes[pn].setdefault('depends', []).append({'name': 'lib', 'environment': {'FLAVOR': 'f%d' % i_}})
     return {'recipes': recipes, 'config': {}, 'files': files}
 
-EDITS = ['script-comment', 'script-semantic', 'var-value', 'checkout-comment', 'add-dep', 'remove-dep', 'pkg-script', 'revert', 'tool-source', 'lib-flavor', 'lib-flavor']
+EDITS = ['script-comment', 'script-semantic', 'var-value', 'checkout-comment', 'add-dep', 'remove-dep', 'pkg-script', 'revert', 'tool-source', 'lib-flavor', 'lib-flavor', 'build-finalize', 'package-finalize', 'build-setup']
 
 def apply_edit(rnd, model, history):
     """returns (new model, description); never mutates the input"""
@@ -181,6 +181,9 @@ def apply_edit(rnd, model, history):
     elif kind == 'var-value':
         k = sorted(r['environment'])[0]; r['environment'][k] = 'val%d' % rnd.randint(3, 9)
     elif kind == 'checkout-comment' and 'checkoutScript' in r: r['checkoutScript'] = '# reviewed %d\n' % rnd.randint(0, 99) + r['checkoutScript']
+    elif kind == 'build-finalize': r['buildFinalize'] = r.get('buildFinalize', '') + 'echo fin%d >> out.txt\n' % rnd.randint(0, 9)       # Setup/Finalize fragments run as well
+    elif kind == 'package-finalize': r['packageFinalize'] = r.get('packageFinalize', '') + 'echo pfin%d >> result.txt\n' % rnd.randint(0, 9)
+    elif kind == 'build-setup': r['buildSetup'] = 'EXTRA_%d=1\n' % rnd.randint(0, 9)
     elif kind == 'pkg-script': r['packageScript'] += 'echo pkg%d >> result.txt\n' % rnd.randint(0, 9)
     elif kind == 'add-dep':
         i = int(name[1:]); cands = [n for n in names if n.startswith('r') and int(n[1:]) > i and n not in r.get('depends', [])]
